@@ -21,7 +21,7 @@ MUTANTS = [
     # ---- C01
     ("c01_appendi64_swap", T + "binary.go", "byte(v>>24), byte(v>>16), byte(v>>8), byte(v))\n}\n\n// Length", "byte(v>>24), byte(v>>8), byte(v>>16), byte(v))\n}\n\n// Length", ["C01"]),
     ("c01_readi16_nosign", T + "binary.go", "return int16(binary.BigEndian.Uint16(buf)), 2, nil", "return int16(binary.BigEndian.Uint16(buf) & 0x7fff), 2, nil", ["C01"]),
-    ("c01_writemapbegin_swapped", T + "bufferwriter.go", "buf[0], buf[1] = byte(kt), byte(vt)", "buf[0], buf[1] = byte(vt), byte(kt)", ["C01"]),
+    ("c01_bufwriter_listsize_int16", T + "bufferwriter.go", "buf[0] = byte(et)\n\tbinary.BigEndian.PutUint32(buf[1:], uint32(size))\n\treturn nil\n}\n\nfunc (w *BufferWriter) WriteSetBegin", "buf[0] = byte(et)\n\tbinary.BigEndian.PutUint32(buf[1:], uint32(int32(int16(size))))\n\treturn nil\n}\n\nfunc (w *BufferWriter) WriteSetBegin", ["C01"]),
     ("c01_appendfield_idhi", T + "binary.go", "return append(buf, byte(typeID), byte(uint16(id>>8)), byte(id))", "return append(buf, byte(typeID), byte(id>>8&0x7f), byte(id))", ["C01"]),
     ("c01_bufwriter_field_id", T + "bufferwriter.go", "buf[0], buf[1], buf[2] = byte(typeID), byte(uint16(id>>8)), byte(id)", "buf[0], buf[1], buf[2] = byte(typeID), byte(uint16(id)>>9), byte(id)", ["C01"]),
     ("c01_readbool_nonzero", T + "bufferreader.go", "v = b[0] == 1\n", "v = b[0] != 0 && len(b) > 0 && b[0] < 2\n", []),  # equivalent on canonical input: must NOT be caught
@@ -46,7 +46,7 @@ MUTANTS = [
     ("c04_release_compaction_off", "bufiox/defaultbuf.go", "n := copy(r.buf, r.buf[r.ri:])\n\t\t\tr.buf = r.buf[:n]", "n := copy(r.buf, r.buf[r.ri:])\n\t\t\tif n > 4096 { n-- }\n\t\t\tr.buf = r.buf[:n]", ["C04"]),
     ("c04_err_lost_after_release", "bufiox/defaultbuf.go", "\tr.ri = 0\n\treturn nil\n}", "\tr.ri = 0\n\tif r.err == io.ErrUnexpectedEOF { r.err = io.EOF }\n\treturn nil\n}", ["C04"]),
     # ---- C05 / C09
-    ("c05_flush_reverse_pending", "bufiox/defaultbuf.go", "for _, oldBuf := range w.pendingBuf {\n\t\toffset += copy(w.buf[offset:], oldBuf[offset:])\n\t}", "for i := len(w.pendingBuf) - 1; i >= 0; i-- {\n\t\toldBuf := w.pendingBuf[i]\n\t\toffset += copy(w.buf[offset:], oldBuf[offset:])\n\t}", ["C05"]),
+    ("c05_flush_reverse_pending", "bufiox/defaultbuf.go", "for _, oldBuf := range w.pendingBuf {\n\t\toffset += copy(w.buf[offset:], oldBuf[offset:])\n\t}", "for i := range w.pendingBuf {\n\t\toldBuf := w.pendingBuf[i]\n\t\tif len(w.pendingBuf) >= 3 { oldBuf = w.pendingBuf[len(w.pendingBuf)-1-i] }\n\t\toffset += copy(w.buf[offset:], oldBuf[offset:])\n\t}", ["C05"]),
     ("c05_offset_not_accumulated", "bufiox/defaultbuf.go", "offset += copy(w.buf[offset:], oldBuf[offset:])", "offset = copy(w.buf[offset:], oldBuf[offset:])", ["C05"]),
     ("c09_free_before_write", "bufiox/defaultbuf.go", "if _, err = w.wd.Write(w.buf); err != nil {", "if !w.disableCache && len(w.pendingBuf) > 1 { mcache.Free(w.pendingBuf[0]) }\n\tif _, err = w.wd.Write(w.buf); err != nil {", ["C09", "C05"]),
     ("c05_err_not_stored", "bufiox/defaultbuf.go", "if _, err = w.wd.Write(w.buf); err != nil {\n\t\tw.err = err\n\t\treturn err", "if _, err = w.wd.Write(w.buf); err != nil {\n\t\treturn err", ["C05"]),
@@ -66,9 +66,9 @@ MUTANTS = [
     ("c07_strstore_len_cached", "internal/strstore/strstore.go", "if cap(s.buf) < totalLen {\n\t\ts.buf = make([]byte, totalLen)\n\t} else {\n\t\ts.buf = s.buf[:totalLen]\n\t}", "if cap(s.buf) < totalLen {\n\t\ts.buf = make([]byte, totalLen)\n\t} else if totalLen > 0 {\n\t\ts.buf = s.buf[:totalLen]\n\t}", ["C07"]),
     # ---- C11 / C15
     ("c11_case_60b", T + "base/k-base.go", "case 0x60d: // p.Extra ID:6 thrift.MAP", "case 0x60b: // p.Extra ID:6 thrift.MAP", ["C11"]),
-    ("c11_extra_always_alloc", T + "base/k-base.go", "// p.Extra ID:3 thrift.MAP\n\tif p.Extra != nil {\n\t\toff += 3\n\t\toff += 6", "// p.Extra ID:3 thrift.MAP\n\tif p.Extra != nil || p.StatusCode == 77 {\n\t\toff += 3\n\t\toff += 6", ["C11"]),
+    ("c11_empty_extra_stays_nil", T + "base/k-base.go", "p.Extra = make(map[string]string, sz)\n\t\t\tfor i := 0; i < sz; i++ {\n\t\t\t\tvar k string\n\t\t\t\tvar v string\n\t\t\t\tk, l, err = x.ReadString(b[off:])\n\t\t\t\toff += l\n\t\t\t\tif err != nil {\n\t\t\t\t\tgoto ReadFieldError\n\t\t\t\t}\n\t\t\t\tv, l, err = x.ReadString(b[off:])\n\t\t\t\toff += l\n\t\t\t\tif err != nil {\n\t\t\t\t\tgoto ReadFieldError\n\t\t\t\t}\n\t\t\t\tp.Extra[k] = v\n\t\t\t}\n\t\tdefault:\n\t\t\tl, err = x.Skip(b[off:], ftyp)\n\t\t\toff += l\n\t\t\tif err != nil {\n\t\t\t\tgoto SkipFieldError\n\t\t\t}\n\t\t}\n\t}\n\treturn\nReadFieldBeginError:\n\treturn off, thrift.PrependError(fmt.Sprintf(\"%T read field begin error: \", p), err)\nReadFieldError:\n\treturn off, thrift.PrependError(fmt.Sprintf(\"%T read field %d '%s' error: \", p, fid, fieldIDToName_BaseResp[fid]), err)", "if sz > 0 {\n\t\t\t\tp.Extra = make(map[string]string, sz)\n\t\t\t}\n\t\t\tfor i := 0; i < sz; i++ {\n\t\t\t\tvar k string\n\t\t\t\tvar v string\n\t\t\t\tk, l, err = x.ReadString(b[off:])\n\t\t\t\toff += l\n\t\t\t\tif err != nil {\n\t\t\t\t\tgoto ReadFieldError\n\t\t\t\t}\n\t\t\t\tv, l, err = x.ReadString(b[off:])\n\t\t\t\toff += l\n\t\t\t\tif err != nil {\n\t\t\t\t\tgoto ReadFieldError\n\t\t\t\t}\n\t\t\t\tp.Extra[k] = v\n\t\t\t}\n\t\tdefault:\n\t\t\tl, err = x.Skip(b[off:], ftyp)\n\t\t\toff += l\n\t\t\tif err != nil {\n\t\t\t\tgoto SkipFieldError\n\t\t\t}\n\t\t}\n\t}\n\treturn\nReadFieldBeginError:\n\treturn off, thrift.PrependError(fmt.Sprintf(\"%T read field begin error: \", p), err)\nReadFieldError:\n\treturn off, thrift.PrependError(fmt.Sprintf(\"%T read field %d '%s' error: \", p, fid, fieldIDToName_BaseResp[fid]), err)", ["C11"]),
     ("c15_threshold_on_cap", T + "binary.go", "if w == nil || len(v) < nocopyWriteThreshold {\n\t\treturn p.WriteBinary(buf, v)", "if w == nil || cap(v) < nocopyWriteThreshold {\n\t\treturn p.WriteBinary(buf, v)", []),  # whether a value goes direct is not part of the property
-    ("c15_remaincap_from_len", T + "binary.go", "_ = w.WriteDirect(unsafex.StringToBinary(v), len(buf[4:])) // always err == nil ?", "_ = w.WriteDirect(unsafex.StringToBinary(v), len(buf[4:])-len(v)%3) // always err == nil ?", ["C15"]),
+    ("c15_remaincap_from_len", T + "binary.go", "_ = w.WriteDirect(unsafex.StringToBinary(v), len(buf[4:])) // always err == nil ?", "_ = w.WriteDirect(unsafex.StringToBinary(v), len(buf[4:])+len(v)%2) // always err == nil ?", ["C15"]),
     ("c15_nocopy_len_prefix", T + "binary.go", "binary.BigEndian.PutUint32(buf, uint32(len(v)))\n\t_ = w.WriteDirect(v, len(buf[4:])) // always err == nil ?", "binary.BigEndian.PutUint32(buf, uint32(len(v)&0xffffdfff))\n\t_ = w.WriteDirect(v, len(buf[4:])) // always err == nil ?", ["C15"]),
     # ---- C12 / C17 / C18
     ("c12_version_mask", T + "thrift.go", "msgVersionMask = 0xffff0000", "msgVersionMask = 0xff7f0000", ["C12", "C17"]),
